@@ -6,7 +6,7 @@ idx_path = os.path.join(ROOT, "coq", "Props", "index.json")
 idx = json.load(open(idx_path)) if os.path.exists(idx_path) else {}
 
 TB = ("Trusted: Coq 8.16.1 kernel and vm_compute (no native_compute); no axioms declared (Print Assumptions of every property theorem is "
-      "checked on each run); rs2v (syn-based translator: tables, constants and 44 functions of the source regenerated into Coq on each run; cross-checked by tools/gen_tables.py; u8 arithmetic checked, machine-word overflow of usize counters not modelled); extraction with ExtrOcamlBasic only and ocaml/driver.ml "
+      "checked on each run); rs2v (syn-based translator: tables, constants and 49 functions of the source regenerated into Coq on each run; cross-checked by tools/gen_tables.py; u8 arithmetic checked, machine-word overflow of usize counters not modelled); extraction with ExtrOcamlBasic only and ocaml/driver.ml "
       "(parsing/printing glue); the Rust harness; Spec.v as a transcription of UAX #9 rev. 50; rustc/core behaviour "
       "(char_indices, len_utf8/16, decode_utf16, binary_search_by, stable sort) as modelled in ModelText.v.")
 
@@ -28,7 +28,7 @@ P = {
  "C14": ("5/C14", "Rocq/Coq proof on the table regenerated from tables.rs on every run: sorted, disjoint, halving search = linear lookup, equal to the committed UCD 16.0 reference on every code point; exhaustive tie over all scalars through the public API; the lookup function itself (binary search with the source's comparator) translated from the source and proved equal to the model (tie_class_lookup)"),
  "C15": ("5/C15", "Rocq/Coq proof on the regenerated bracket table: structure and equality with the committed reference on every code point; exhaustive tie over all scalars through the public trait method; the lookup loop translated from the source and proved equal to the model (tie_bracket_lookup)"),
  "C16": ("5/C16", "Rocq/Coq proof: get_base_direction model = Spec P2/P3, agrees with the analysis (C16_final); differential correspondence on 4 entry points x 2 encodings; get_base_direction_impl additionally translated from the current source by rs2v and proved equal to the model function (tie_base_direction); the analysis-side scan compute_initial_info is tied by translation + proof as well"),
- "C17": ("5/C17", "Rocq/Coq proof: direction / level_at / has_rtl models consistent with the levels (C17_final); judge C17_judge; para_direction additionally translated from the current source by rs2v and proved equal to the model function (tie_para_direction)"),
+ "C17": ("5/C17", "Rocq/Coq proof: direction / level_at / has_rtl models consistent with the levels (C17_final); judge C17_judge; para_direction additionally translated from the current source by rs2v and proved equal to the model function (tie_para_direction); BidiInfo::has_rtl, ParagraphBidiInfo::has_rtl and ParagraphBidiInfo::direction translated as well and proved equal to the model's queries (SrcTieGlue.v)"),
  "C18": ("5/C18", "Rocq/Coq proof: char_at/iterators = lossy decoding, all next/next_back interleavings = ideal deque; differential correspondence incl. exhaustive small programs; <[u16] as TextSource>::char_at additionally translated from the current source by rs2v and proved equal to the model's char_at16 (tie_char_at16)"),
  "C19": ("5/C19", "Rocq/Coq proof by lia over all nat arguments; exhaustive tie over the whole u8 domain in debug and release builds; every Level function translated from the current source by rs2v and proved equal to the model on the whole u8 domain (SrcTieLevel.v: 15 tie lemmas)"),
  "C20": ("5/C20", "differential correspondence across five feature builds (byte-identical outputs, default build tied to the Coq model) + serde round trip; no theorem can quantify over cargo features"),
@@ -72,7 +72,7 @@ m = {
            "source_commits": [], "add_only": True},
  "engines": [{"name": "coq-model+correspondence", "path": "/verif/coq, /verif/rs2v, /verif/ocaml, /verif/harness, /verif/tools/check.py",
               "serves_properties": sorted(P.keys()),
-              "kind_free_text": "Coq 8.16.1 development (model of the code, UAX#9 spec, judges, theorems) + source translator rs2v (data and 44 functions, with tie theorems) + differential correspondence between the real crate and the extracted model"}],
+              "kind_free_text": "Coq 8.16.1 development (model of the code, UAX#9 spec, judges, theorems) + source translator rs2v (data and 49 functions, with tie theorems) + differential correspondence between the real crate and the extracted model"}],
  "checks": checks,
  "not_applicable": [],
  "notes": "All eleven defects found on the pinned tree (D1-D11) were repaired by fix: commits in /repo (known_findings.txt). The public API suffices for every observation; no hook is needed (hooks.source_commits is empty).",
